@@ -41,6 +41,10 @@ def gen(rng, tier):
         k = max(range(nt), key=lambda i: len(trajs[i]))
         cut = rng.randint(0, len(trajs[k]))
         yield {'trajs': trajs, 'lag': lag, 'S': S, 'F': F, 'perm': perm, 'cut': [k, cut], 'alpha': akind}
+    for _ in range(G.budget(8) if tier == 'quick' else 200):       # arrays of different integer widths, narrow first, > 128 states
+        trajs, dtypes, tag = G.narrow_set(rng, rng.choice(['many-mixed', 'many-unsigned']))
+        yield {'trajs': trajs, 'lag': rng.choice([1, 2]), 'S': [trajs[0][0]], 'F': [trajs[1][0] if trajs[1][0] != trajs[0][0] else trajs[1][1]],
+               'perm': [1, 0, 2], 'cut': [1, len(trajs[1]) // 2], 'alpha': tag, 'dtypes': dtypes, 'light': True}
     if tier == 'thorough':
         base = [[0, 0, 1, 2, 1, 1], [2, 2, 0], [1], [0, 1, 0, 2, 2, 2, 1, 0]]
         for nt in (2, 3, 4):
@@ -66,15 +70,31 @@ def _cutset(case):
     return case['trajs'][:k] + pieces + case['trajs'][k + 1:]
 
 
+def _cutidx(case):
+    k, c = case['cut']
+    t = case['trajs'][k]
+    npieces = len([p for p in (t[:c], t[c:]) if p])
+    return list(range(k)) + [k] * npieces + list(range(k + 1, len(case['trajs'])))
+
+
 def impl(case):
     import numpy as np
     from analyses import battery
-    A = lambda ts: [np.array(t) for t in ts]  # noqa
+    from implutil import DTYPES
+    dts = case.get('dtypes')
+
+    def A(ts, idx=None):
+        if not dts:
+            return [np.array(t) for t in ts]
+        idx = idx if idx is not None else range(len(ts))
+        return [np.array(t, dtype=DTYPES[dts[i % len(dts)]]) for t, i in zip(ts, idx)]
     trajs = case['trajs']
-    out = {'base': battery(A(trajs), case['lag'], case['S'], case['F']),
-           'perm': battery(A([trajs[i] for i in case['perm']]), case['lag'], case['S'], case['F']),
-           'cut': battery(A(_cutset(case)), case['lag'], case['S'], case['F'], which=['emm']),
-           'single': [battery(A([t]), case['lag'], case['S'], case['F'], which=['coring', 'wt', 'paths']) for t in trajs]}
+    W = ['emm', 'coring', 'wt', 'paths'] if case.get('light') else None
+    out = {'base': battery(A(trajs), case['lag'], case['S'], case['F'], which=W),
+           'perm': battery(A([trajs[i] for i in case['perm']], case['perm']), case['lag'], case['S'], case['F'], which=W),
+           'cut': battery(A(_cutset(case), _cutidx(case)), case['lag'], case['S'], case['F'], which=['emm']),
+           'single': [battery(A([t], [i]), case['lag'], case['S'], case['F'], which=['coring', 'wt', 'paths'])
+                      for i, t in enumerate(trajs)]}
     return out
 
 
@@ -112,6 +132,8 @@ def judge(case, ibc, answers):
         if b['emm'] != p['emm']:
             P('impl-vs-spec', 'T/states change when the trajectories are reordered')
         for name in ('its', 'ck'):
+            if name not in b:
+                continue
             if not _close(b[name], p[name]):
                 P('impl-vs-spec', '%s changes when the trajectories are reordered: %s vs %s' % (
                     name, C.short(b[name], 120), C.short(p[name], 120)))
